@@ -2,7 +2,7 @@ SPECIFICATION Spec
 CONSTANTS
   Lists = {"ridx", "rl1", "rl2", "sidx", "ss", "hp"}
   Faults = {"ok", "refused", "timeout", "status", "empty", "oversize", "trunc", "inv", "invown"}
-  MaxRounds = 1
+  MaxRounds = 2
   CrashAnywhere = TRUE
   Defects = {}
   KeepHist = FALSE
